@@ -29,7 +29,7 @@ from ..canon import fingerprint
 from ..explorer import Step
 
 PROPERTY = "C07"
-ALPHABET = "configurations {default, inbound validation+normalisation off}; peer frames on ids {1,2,3,4}: HEADERS x {request,response,info,trailers,invalid} x {ES} x {PRIORITY} x {split}, DATA x {ES} x {pad}, RST_STREAM, PUSH_PROMISE (1->2, 1->4, 2->4, 3->2, 3->4), WINDOW_UPDATE (3 / 2^31-1), PRIORITY; local: request on 1/3, reset 1/2"
+ALPHABET = "configurations {default, inbound validation+normalisation off}; peer frames on ids {1,2,3,4}: HEADERS x {request,response,info,trailers,invalid} x {ES} x {PRIORITY} x {split}, DATA x {ES} x {pad}, RST_STREAM, PUSH_PROMISE (1->2, 1->4, 2->4, 3->2, 3->4), WINDOW_UPDATE (3 / 2^31-1), PRIORITY; local: request on 1/3, request refused for its priority argument on 1/3, reset 1/2"
 BOUNDS = {"quick": "BFS depth 5 per role; all single-bit flips of the valid corpus",
           "thorough": "BFS depth 7 per role (or time budget, reported); all single-bit flips and all double-bit flips within one frame for corpus streams <= 64 bytes"}
 sb = H.stateless_block
@@ -202,7 +202,7 @@ class Spec:
             return []
         acts = ["rx:" + k for k in sorted(self.frames)]
         if self.client:
-            acts += ["l:req:1", "l:req:1:es", "l:req:3:es"]
+            acts += ["l:req:1", "l:req:1:es", "l:req:3:es", "l:reqbad:1", "l:reqbad:3"]
         acts += ["l:rst:1", "l:rst:2", "cleanup"]
         return acts
 
@@ -220,6 +220,13 @@ class Spec:
             return Step("cleanup")
         parts = lab.split(":")
         if parts[0] == "l":
+            if parts[1] == "reqbad":
+                # a request the library must refuse for an argument (the stream would depend on itself): the stream is not opened
+                sid = int(parts[2])
+                o = h.api("send_headers", sid, H.ni(H.REQ_POST), priority_depends_on=sid)
+                if o.kind == "ok":
+                    bad("refusal-expected", "send_headers with a self-dependency succeeded")
+                return Step("l-refused-arg", viols)
             if parts[1] == "req":
                 o = h.api("send_headers", int(parts[2]), H.ni(H.REQ_POST), end_stream=(parts[-1] == "es"))
             else:
